@@ -37,18 +37,22 @@ import common
 import c18_audit
 import c18_gen
 import c18_tie
+import c18_cover
 import impl
 from common import cstr, cbool, clist, cpair
 
 THEOREMS = ['C18_run_fresh_state', 'C18_history_independent',
             'C18_shared_state_would_leak', 'C18_output_order_irrelevant',
-            'C18_deterministic_model',
+            'C18_deterministic_model', 'C18_full_run_fresh_state',
+            'C18_full_history_independent',
+            'C18_full_deterministic_model', 'C18_upstream_state_relevant',
             'C18_volume_text_order_irrelevant',
             'C18_remove_keys_order_irrelevant',
             'C18_sorted_depends_on_set_only',
             'C18_numbering_order_sensitive_partial',
             'C18_audit_globals_readonly', 'C18_audit_ord_only_ints',
-            'C18_audit_effects_allowlisted', 'C18_audit_fail_closed']
+            'C18_audit_effects_allowlisted', 'C18_audit_ambient_allowlisted',
+            'C18_audit_fail_closed']
 TRUSTED = [
     'hand-written model coq/C18/Model.v (modelled, tied by execution only)',
     'the translator harness/c18_audit.py (Python ast -> Footprint.v): '
@@ -109,6 +113,10 @@ def footprint_source(entries):
         'e_live e = true ->\n  is_store e = true \\/ is_write e = true \\/ '
         'is_unknown e = true -> Allowed allow e.\n'
         'Proof. exact (audit_effects_allowlisted allow footprint '
+        'footprint_ok). Qed.\n'
+        'Theorem footprint_ambient_allowlisted : forall e, In e footprint -> '
+        'e_live e = true ->\n  is_ambient e = true -> Allowed allow e.\n'
+        'Proof. exact (audit_ambient_allowlisted allow footprint '
         'footprint_ok). Qed.\n'
         'Print Assumptions footprint_ok.\n'
         'Print Assumptions footprint_ord_only_ints.\n')
@@ -234,9 +242,11 @@ def run_worker(runs, hashseed, scratch, tag, fork_each=False):
     return data['results'], ''
 
 
-def strip_job(job, want_text=False, slot=None):
+def strip_job(job, want_text=False, slot=None, cwd=None):
     run = {'deck': job['deck'], 'args': job['args'],
            'encoding': job.get('encoding', 'utf-8')}
+    if cwd is not None:
+        run['cwd'] = cwd
     if want_text:
         run['want_text'] = True
     if slot is not None:
@@ -326,6 +336,55 @@ def cache_witness(res, scratch):
             cls='cache_option_stale_disk_cache', found_input=True)
 
 
+def same_path_pairs(res, quick, rng, jobs, fresh_res, hashseeds, scratch):
+    '''Same process, same input path: convert A, then B (another deck,
+    possibly other options, possibly failing), then A again.  B must come out
+    as in a fresh process, and so must the second A.'''
+    good = [k for k in range(len(jobs)) if (k, hashseeds[0]) in fresh_res
+            and '--cache' not in jobs[k]['args']]
+    n_pairs = 16 if quick else 150
+    pairs = [(n, rng.choice(good), rng.choice(good)) for n in range(n_pairs)]
+
+    def one(item):
+        n, a, b = item
+        out, err = run_worker([strip_job(jobs[a], slot='p'),
+                               strip_job(jobs[b], slot='p'),
+                               strip_job(jobs[a], slot='p')],
+                              hashseeds[n % len(hashseeds)], scratch, f'p{n}')
+        return item, out, err
+
+    errors = []
+    with ThreadPoolExecutor(max_workers=12) as pool:
+        for (n, a, b), out, err in pool.map(one, pairs):
+            if out is None:
+                errors.append(f'pair {n}: {err[-300:]}')
+                continue
+            res.count('same-path-pair')
+            for pos, k in enumerate((a, b, a)):
+                ref = fresh_res[(k, hashseeds[0])]
+                check_side_effects(res, jobs[k], out[pos],
+                                   f'same-path sequence A,B,A position {pos}')
+                if outcome(out[pos]) != outcome(ref):
+                    hist = [{'deck': jobs[j]['deck'], 'args': jobs[j]['args'],
+                             'encoding': jobs[j].get('encoding', 'utf-8')}
+                            for j in (a, b, a)[:pos]]
+                    res.violation(
+                        'impl-violation',
+                        'same process, same input path: deck '
+                        f'{jobs[k]["tags"]} (args {jobs[k]["args"]}) '
+                        f'converted at position {pos} of the sequence A,B,A '
+                        f'gives {outcome(out[pos])}, a fresh process gives '
+                        f'{outcome(ref)} (A = {jobs[a]["tags"]}, B = '
+                        f'{jobs[b]["tags"]})',
+                        {'input': {'history': hist, 'deck': jobs[k]['deck'],
+                                   'args': jobs[k]['args'],
+                                   'encoding': jobs[k].get('encoding',
+                                                           'utf-8'),
+                                   'same_path': True}}, found_input=True)
+    res.obligation(f'sweep: {len(pairs)} same-path sequences A,B,A in one '
+                   'process ran', not errors, '; '.join(errors[:3]))
+
+
 def _sweep(res, tier, seed, rng, scratch):
     quick = tier == 'quick'
     corpus = c18_gen.corpus_jobs(common.REPO)
@@ -351,9 +410,18 @@ def _sweep(res, tier, seed, rng, scratch):
     chunks = [(c, hs, list(range(c, len(jobs), n_chunks)))
               for hs in hashseeds for c in range(n_chunks)]
 
+    # the working directory varies with the seed as well: worker's own cwd
+    # (absolute names), the deck's directory (relative names), an unrelated
+    # empty directory (absolute names; it must stay empty)
+    cwd_of = {hs: [None, 'deckdir', 'elsewhere'][i % 3]
+              for i, hs in enumerate(hashseeds)}
+    res.extra['sweep']['cwd_by_hash_seed'] = {str(k): str(v)
+                                              for k, v in cwd_of.items()}
+
     def fresh(item):
         c, hs, ks = item
-        out, err = run_worker([strip_job(jobs[k], want_text=(hs == 0))
+        out, err = run_worker([strip_job(jobs[k], want_text=(hs == 0),
+                                         cwd=cwd_of[hs])
                                for k in ks], hs, scratch, f'f{c}_{hs}',
                               fork_each=True)
         return ks, hs, out, err
@@ -428,13 +496,15 @@ def _sweep(res, tier, seed, rng, scratch):
             if outcome(other) != outcome(ref):
                 res.violation(
                     'impl-violation',
-                    f'output depends on the hash seed: PYTHONHASHSEED='
-                    f'{hashseeds[0]} gives {outcome(ref)}, PYTHONHASHSEED='
-                    f'{hs} gives {outcome(other)} (deck {job["tags"]}, args '
-                    f'{job["args"]})',
+                    f'output depends on the hash seed or on the working '
+                    f'directory: PYTHONHASHSEED={hashseeds[0]} (cwd: worker) '
+                    f'gives {outcome(ref)}, PYTHONHASHSEED={hs} (cwd: '
+                    f'{cwd_of[hs]}) gives {outcome(other)} (deck '
+                    f'{job["tags"]}, args {job["args"]})',
                     {'input': {'deck': job['deck'], 'args': job['args'],
                                'encoding': job.get('encoding', 'utf-8'),
-                               'hashseeds': [hashseeds[0], hs]}},
+                               'hashseeds': [hashseeds[0], hs],
+                               'cwds': [None, cwd_of[hs]]}},
                     found_input=True)
     res.extra['sweep']['converted_ok'] = n_ok
 
@@ -453,22 +523,23 @@ def _sweep(res, tier, seed, rng, scratch):
                       len(jobs) - 1 - rng.randrange(len(broken)))
         shared = rng.random() < 0.5
         hs = rng.choice(hashseeds)
-        histories.append((h, ks, shared, hs))
+        cwds = [rng.choice([None, None, 'deckdir', 'elsewhere']) for _ in ks]
+        histories.append((h, ks, shared, hs, cwds))
 
     def warm(item):
-        h, ks, shared, hs = item
+        h, ks, shared, hs, cwds = item
         runs = []
-        for k in ks:
+        for k, cwd in zip(ks, cwds):
             slot = 'shared' if (shared and '--cache' not in jobs[k]['args']) \
                 else None
-            runs.append(strip_job(jobs[k], slot=slot))
+            runs.append(strip_job(jobs[k], slot=slot, cwd=cwd))
         out, err = run_worker(runs, hs, scratch, f'w{h}')
         return item, out, err
 
     n_warm = 0
     werrors = []
     with ThreadPoolExecutor(max_workers=16) as pool:
-        for (h, ks, shared, hs), out, err in pool.map(warm, histories):
+        for (h, ks, shared, hs, cwds), out, err in pool.map(warm, histories):
             if out is None:
                 werrors.append(f'history {h}: {err[-300:]}')
                 continue
@@ -478,7 +549,8 @@ def _sweep(res, tier, seed, rng, scratch):
                 n_warm += 1
                 res.count(f'warm:position{min(pos, 6)}')
                 where = (f'warm process, hash seed {hs}, after {pos} other '
-                         f'conversions, shared input path={shared}')
+                         f'conversions, shared input path={shared}, cwd='
+                         f'{cwds[pos]}')
                 check_side_effects(res, job, r, where)
                 if outcome(r) != outcome(ref):
                     hist = [{'deck': jobs[j]['deck'], 'args': jobs[j]['args'],
@@ -489,15 +561,18 @@ def _sweep(res, tier, seed, rng, scratch):
                         f'output depends on earlier conversions in the same '
                         f'process: fresh {outcome(ref)}, after {pos} other '
                         f'conversions {outcome(r)} (deck {job["tags"]}, args '
-                        f'{job["args"]}, shared path={shared})',
+                        f'{job["args"]}, shared path={shared}, cwd='
+                        f'{cwds[pos]})',
                         {'input': {'history': hist, 'deck': job['deck'],
                                    'args': job['args'],
                                    'encoding': job.get('encoding', 'utf-8'),
-                                   'same_path': shared, 'hashseed': hs}},
+                                   'same_path': shared, 'hashseed': hs,
+                                   'cwds': cwds[:pos + 1]}},
                         found_input=True)
     res.obligation(f'sweep: {n_warm} warm-process conversions in '
                    f'{len(histories)} histories ran', not werrors,
                    '; '.join(werrors[:3]))
+    same_path_pairs(res, quick, rng, jobs, fresh_res, hashseeds, scratch)
     cache_witness(res, scratch)
     return jobs, fresh_res, hashseeds
 
@@ -508,7 +583,7 @@ def _sweep(res, tier, seed, rng, scratch):
 # ---------------------------------------------------------------------------
 
 TIE_HEADER = ('From Coq Require Import List ZArith Bool.\n'
-              'From T4V Require Import C18.Model C18.Exec.\n'
+              'From T4V Require Import C18.Model C18.Upstream C18.Exec.\n'
               'Import ListNotations.\nOpen Scope Z_scope.\n')
 STAGE_ERRORS = ('CellConversionError', 'KeyError')
 
@@ -550,11 +625,16 @@ def model_tie(res, tier, rng, jobs, fresh_res, hashseeds):
     histories, current = [], []
     n_cases = n_in = n_warm_mismatch = 0
     size_budget = 0
+    cover = c18_cover.Coverage()
     for k in order:
         if n_cases >= limit:
             break
         job = jobs[k]
-        conv, cap, expected = observe(job)
+        if job['tags'][0] == 'regression':
+            with cover:
+                conv, cap, expected = observe(job)
+        else:
+            conv, cap, expected = observe(job)
         # warm (this interpreter, after all the earlier conversions) vs fresh
         ref = fresh_res.get((k, hashseeds[0]))
         if ref is not None:
@@ -582,26 +662,56 @@ def model_tie(res, tier, rng, jobs, fresh_res, hashseeds):
         if size > (400 if quick else 1500):
             res.count('tie:too-large')
             continue
+        # the upstream phases (TRCL / lattice / FILL), when captured
+        upstream = 'None'
+        if cap.up is not None and not cap.up_unsupported \
+                and expected != 'None':
+            usize = c18_tie.upstream_size(cap.up)
+            if usize <= (600 if quick else 2500):
+                upstream = f'(Some {c18_tie.coq_uinput(cap.up)})'
+                size += usize
+                res.count('tie:with-upstream')
+                for op in cap.up['ops']:
+                    res.count('upstream-op:' + op[0])
+            else:
+                res.count('tie:upstream-too-large')
+        else:
+            res.count('tie:no-upstream')
         n_cases += 1
         res.count('tie:' + ('ok' if expected != 'None' else 'stage-error'))
         if cap.cells:
             res.count('tie:with-cellrefs')
         if any(len(sides) > 1 for _, sides in cap.items):
             res.count('tie:with-aux-surfaces')
-        current.append((cpair(c18_tie.coq_input(cap), expected), job))
+        current.append((cpair(upstream, c18_tie.coq_input(cap), expected),
+                        job))
         size_budget += size
-        if len(current) >= 6 or size_budget > 900:
+        if len(current) >= 6 or size_budget > 1400:
             histories.append(current)
             current, size_budget = [], 0
     if current:
         histories.append(current)
+    total, missing, _stale = cover.report()
+    res.obligation(f'coverage: every executable line of the {len(c18_cover.target_functions())} '
+                   f'modelled functions ({total} lines) is executed by a tied '
+                   f'regression deck, except {len(c18_cover.UNREACHED)} '
+                   'listed unreachable lines', not missing,
+                   '; '.join(f'{f}: {t}' for f, t in missing[:6]))
+    # (an obligation only: a behaviour-preserving rewrite that adds a line no
+    # deck reaches must not be reported as a violation)
+    res.extra['coverage_missing'] = [list(m) for m in missing]
     cases = [clist(c for c, _ in hist) for hist in histories]
     bad, errs = common.run_case_files(
-        'c18_hist', TIE_HEADER, 'list (input * option output)',
-        'check_history', cases, chunk=8)
+        'c18_hist', TIE_HEADER,
+        'list (option uinput * input * option output)',
+        'check_full_history', cases, chunk=8)
     res.obligation(f'tie:history ({n_cases} conversions in {len(cases)} '
-                   'histories: model run_history conversion = SURF/VOLU lines '
-                   'written by the implementation in a warm interpreter)',
+                   'histories: upstream model (pot_transform / cell_transform '
+                   '/ apply_trcl / pot_fill counter: new_cell_key, '
+                   'new_surf_key, cache, dic_surf_t4 order) = state observed '
+                   'at number_items, and model conversion fed with it = '
+                   'SURF/VOLU lines written by the implementation in a warm '
+                   'interpreter)',
                    not bad and not errs,
                    f'{len(bad)} disagreements {errs[:1]}')
     if histories:
@@ -612,7 +722,7 @@ def model_tie(res, tier, rng, jobs, fresh_res, hashseeds):
         # which conversion of the history disagrees?
         culprit = None
         for pos, (case, job) in enumerate(hist):
-            val, _ = common.coq_eval(TIE_HEADER, f'check_conv {case}')
+            val, _ = common.coq_eval(TIE_HEADER, f'check_full {case}')
             if val is None or 'false' in val:
                 culprit = (pos, job)
                 if os.environ.get('C18_DEBUG'):
@@ -665,9 +775,12 @@ def replay(path):
         job = {'deck': inp['deck'], 'args': inp.get('args', []),
                'encoding': inp.get('encoding', 'utf-8')}
         seeds = inp.get('hashseeds') or [inp.get('hashseed', 0)]
-        for hs in seeds:
-            out, err = run_worker([strip_job(job)], hs, scratch, f'r{hs}')
-            print(f'fresh process, PYTHONHASHSEED={hs}:',
+        cwds = inp.get('cwds') or [None] * len(seeds)
+        for n, hs in enumerate(seeds):
+            cwd = cwds[n] if n < len(cwds) else None
+            out, err = run_worker([strip_job(job, cwd=cwd)], hs, scratch,
+                                  f'r{n}_{hs}')
+            print(f'fresh process, PYTHONHASHSEED={hs}, cwd={cwd}:',
                   out[0] if out else err)
         if inp.get('history') is not None:
             slot = 'shared' if inp.get('same_path') else None
